@@ -69,6 +69,47 @@ def layer_priorities():
     raise TranslateError("PRIORITY_OF_DIAG_LAYER_TYPE not found")
 
 
+def strict_mode_discipline():
+    """C17: (1) odxraise raises iff strict_mode is set *at the time of the call* and
+    otherwise only logs; (2) no module binds the value of strict_mode at import time.
+    Returns the number of import-time bindings found."""
+    mod = _parse("odxtools/exceptions.py")
+    fn = None
+    for n in mod.body:
+        if isinstance(n, ast.FunctionDef) and n.name == "odxraise":
+            fn = n
+    if fn is None:
+        raise TranslateError("odxraise not found")
+    body = [b for b in fn.body if not (isinstance(b, ast.Expr) and isinstance(b.value, ast.Constant))]
+    if len(body) != 1 or not isinstance(body[0], ast.If):
+        raise TranslateError("odxraise: expected a single if statement")
+    top = body[0]
+    names = {x.id for x in ast.walk(top.test) if isinstance(x, ast.Name)}
+    if "strict_mode" not in names or not names <= {"strict_mode", "TYPE_CHECKING"}:
+        raise TranslateError("odxraise: the guard must test the module level strict_mode")
+    if not all(isinstance(x, ast.Raise) for b in top.body for x in ([b] if not isinstance(b, ast.If) else b.body + b.orelse)):
+        raise TranslateError("odxraise: the strict branch must raise")
+    for x in top.orelse:
+        for y in ast.walk(x):
+            if isinstance(y, ast.Raise):
+                raise TranslateError("odxraise: the lenient branch must not raise")
+    # import-time bindings of the flag anywhere in the package
+    count = 0
+    root = os.path.join(REPO, "odxtools")
+    for d, _, fs in os.walk(root):
+        for f in fs:
+            if not f.endswith(".py"):
+                continue
+            rel = os.path.relpath(os.path.join(d, f), REPO)
+            if rel == os.path.join("odxtools", "exceptions.py"):
+                continue
+            for n in ast.walk(_parse(rel)):
+                if isinstance(n, ast.ImportFrom) and n.module and n.module.split(".")[-1] == "exceptions":
+                    if any(a.name == "strict_mode" for a in n.names):
+                        count += 1
+    return count
+
+
 def coq_name(s):
     return "[" + "; ".join(str(ord(ch)) for ch in s) + "]"
 
@@ -106,6 +147,7 @@ def generate():
         if k not in pr:
             raise TranslateError(f"priority of {k} missing")
         parts.append(f"Definition prio_{k.lower()} : Z := {pr[k]}.")
+    parts.append(f"Definition strict_mode_import_bindings : Z := {strict_mode_discipline()}.")
     kw, reserved = runtime_tables()
     parts.append("Definition keywords : list (list Z) :=\n  " + coq_names(kw) + ".")
     parts.append("Definition reserved : list (list Z) :=\n  " + coq_names(reserved) + ".")
